@@ -204,6 +204,13 @@ contract("artap.operators:WorstCaseEvaluator.evaluate", props=["C14"], options={
          requires=["idle(self)"],
          ensures=["idle(self)",
                   "forall(lambda i: wc_result(individuals[i], self.n - 1, len(individuals[i].vector)), 0, len(individuals))",
+                  # the neighbours sit at exactly -tol / +tol along each axis (also for designs on or near a bound)
+                  "forall(lambda i: forall(lambda j: shifted(individuals[i].children[j], individuals[i], j // 2, "
+                  "(self.algorithm.problem.parameters[j // 2]['tol'] if j % 2 == 1 else -self.algorithm.problem.parameters[j // 2]['tol'])), "
+                  "0, len(individuals[i].children)), 0, len(individuals))",
+                  # 1 + 2n objective evaluations per design of the batch
+                  "self.algorithm.problem.ghost_calls == old(self.algorithm.problem.ghost_calls) + "
+                  "sum([1 + 2 * len(x.vector) for x in individuals])",
                   # designs of earlier batches keep their cost vectors (history of batches is in the scenario)
                   "forall(lambda i: len(self.ghost_history[i].costs) == self.n and "
                   "list(self.ghost_history[i].costs) == list(old(self.ghost_history[i].costs)), 0, len(self.ghost_history))"])
@@ -211,6 +218,8 @@ contract("artap.operators:GradientEvaluator.evaluate", props=["C14"], options={"
          types={"individuals": "List[Ref[Individual]]"},
          requires=["idle(self)"],
          ensures=["idle(self)",
+                  "forall(lambda i: forall(lambda k: shifted(individuals[i].children[k], individuals[i], k, self.delta), "
+                  "0, len(individuals[i].children)), 0, len(individuals))",
                   "forall(lambda i: len(individuals[i].children) == len(individuals[i].vector) and "
                   "len(individuals[i].features['gradient']) == len(individuals[i].vector) and "
                   "forall(lambda k: abs(individuals[i].features['gradient'][k] - "
